@@ -151,6 +151,19 @@ def run(res, tier, rng):
         nontriv.add(out)
         if out2 != out:
             res.violation("property", "URLFormatter.format differs from format_url", input=dict(base=base, path=path, args=args), impl=[out, out2])
+        # a formatter holding default arguments: the retained arguments are those of the defaults updated by the call's
+        # (an explicit None / False in the call drops the key)
+        if isinstance(args, dict):
+            n = rng.randint(0, 3)
+            defaults = dict((k, rng.choice(vals)) for k in rng.sample(keys, n))
+            merged = dict(defaults); merged.update(args)
+            out3 = call(URLFormatter(base_url=base, args=defaults, fragment=frag), path=path, args=args, ext=ext)
+            exp3 = call(format_url, base, path=path, args=merged, fragment=frag, ext=ext)
+            out4 = call(URLFormatter(base_url=base, path=path, args=merged, fragment=frag).format, ext=ext)
+            res.evaluations += 1
+            if out3 != exp3 or out4 != exp3:
+                res.violation("property", "URLFormatter with default arguments does not retain exactly the defaults updated by the call's arguments",
+                              input=dict(base=base, path=path, defaults=defaults, args=args, fragment=frag, ext=ext), impl=[out3, out4], expected=exp3)
         # the property, by parsing the result back
         base_dirty = ("?" in base or "#" in base)
         n_before = len(res.violations)
@@ -234,7 +247,7 @@ def run(res, tier, rng):
     res.evaluations += n1
     res.nontrivial = nontriv
     res.rule = ("(a) every string of <= %d URL tokens (schemes, '//', hosts, 64/65-letter runs, separators) + seeded random ones, each with one of %d protocols: the five laws of the statement "
-                "on the implementation, force == ensure(strip) outside the recorded finding class, model vs implementation; (b) seeded format_url / URLFormatter cases over bases x paths (str/list) x "
+                "on the implementation, force == ensure(strip) outside the recorded finding class, model vs implementation; (b) seeded format_url / URLFormatter (plain, with default path / fragment, with default arguments updated by the call's) cases over bases x paths (str/list) x "
                 "dict/list arguments with reserved characters, ints, floats, booleans, None x fragment x ext: result parsed back and compared with the retained arguments; (c) add_query_argument / "
                 "get_query_argument / pathsplit cases. Non-trivial = distinct (input) on which the function changes its input / distinct built URL." % (exh, len(PROTOCOLS)))
     res.sample(dict(url="//lemonde.fr", protocol="https", ensure=ensure_protocol("//lemonde.fr", "https")))
